@@ -299,3 +299,47 @@ Print Assumptions c06_cap_ok_every_step.
 Print Assumptions c06_cap_initial.
 Print Assumptions c06_cap_ok_every_trace.
 Print Assumptions c06_cap_poll.
+
+(* ---- c06_emitted_live_ok: FALSE as stated (a poll that restarts after popping a failed MTU probe processes
+   queued ACKs after its first iteration sent data); TRUE of every poll the transport cannot answer with
+   EMSGSIZE (no path limit in force, no EMSGSIZE in the script) -- the guard is on the EVENTS of the trace,
+   c06_emitted_live_ok_g (Conn/C06_Pred2.v) carries it. *)
+From Utp Require Import Conn.C06_Pred2 Conn.C10_Proofs.
+
+Theorem c06_emitted_live_ok_restart_refuted :
+  exists w cfg ops,
+    vconfig_ok cfg = true /\ Forall op_msg_ok ops /\
+    forallb (c06_emitted_live_ok cfg) (wtrace w cfg ops) = false /\
+    c06_emitted_live_ok_g cfg (wtrace w cfg ops) = true /\
+    forallb (c06_cap_ok cfg) (wtrace w cfg ops) = true.
+Proof. exact emitted_live_restart_refuted. Qed.
+
+(* NW = the poll's clock is env.now(); OUT = every ST_DATA in the poll's output names a segment that is in
+   the table, not delivered, sent, of that payload size, (re)transmitted at this poll's clock *)
+Theorem c06_emitted_live_poll_strict : forall (CC : Type) (cci : cc_iface CC) (s s' : vsock CC),
+  LB 0 s -> EF s -> poll cci s = (s', PollPending) -> NW s' /\ OUT s'.
+Proof. exact @poll_OUT_strict. Qed.
+
+Theorem c06_emitted_live_ok_guarded_step : forall (CC : Type) (cci : cc_iface CC) (cfg : vconfig)
+    (s : vsock CC) (sc : list send_outcome),
+  LB 0 s -> v_emsg_limit s = None -> script_legit sc = true ->
+  c06_emitted_live_ok cfg (VSock_Lemmas.fstep_of cci s (VoPoll sc)) = true.
+Proof. exact @c06_emitted_live_ok_poll. Qed.
+
+Theorem c06_emitted_live_ok_other_events : forall (CC : Type) (cci : cc_iface CC) (cfg : vconfig)
+    (s : vsock CC) (o : vop),
+  (forall sc, o <> VoPoll sc) -> c06_emitted_live_ok cfg (VSock_Lemmas.fstep_of cci s o) = true.
+Proof. exact @c06_emitted_live_ok_other. Qed.
+
+(* LB 0 is an invariant of every trace (Conn/C17_StepLemmas.v vstep_LB, vsock_new_LB) *)
+Theorem c06_emitted_live_ok_g_every_trace : forall (CC : Type) (cci : cc_iface CC) (cfg : vconfig)
+    (mk : Z -> Z -> CC) (c : vconfig) (s0 : vsock CC) (ops : list vop),
+  vconfig_ok c = true -> vsock_new cci mk c = Some s0 ->
+  c06_emitted_live_ok_g cfg (ftrace cci s0 ops) = true.
+Proof. exact @c06_emitted_live_ok_g_trace. Qed.
+
+Print Assumptions c06_emitted_live_ok_restart_refuted.
+Print Assumptions c06_emitted_live_poll_strict.
+Print Assumptions c06_emitted_live_ok_guarded_step.
+Print Assumptions c06_emitted_live_ok_other_events.
+Print Assumptions c06_emitted_live_ok_g_every_trace.
